@@ -44,8 +44,11 @@ func runStartFault(w *tr.Writer, seed uint64, idx int) {
 	loops := rnd.Range(1, 3)
 	reuseport := rnd.Chance(50)
 	client := rnd.Chance(25)
-	name := rnd.PickS([]string{"epoll_create1", "eventfd", "epoll_ctl"})
+	name := rnd.PickS([]string{"epoll_create1", "eventfd", "epoll_ctl", "socket"})
 	index := rnd.Intn(2*loops + 3)
+	if name == "socket" {
+		index = rnd.Intn(4) // few sockets are created: the listeners, and in reuse-port mode one more set per further loop
+	}
 	kind := rnd.PickS([]string{"emfile", "enomem"})
 
 	rec := newRecorder()
@@ -76,6 +79,11 @@ func runStartFault(w *tr.Writer, seed uint64, idx int) {
 		defer os.Remove(unixPath2)
 		addr2 = "unix://" + unixPath2
 	}
+	// and some of those a third one (tcp): a failure while the later listeners are created must release the earlier ones
+	addr3 := ""
+	if addr2 != "" && rnd.Chance(40) {
+		addr3 = fmt.Sprintf("tcp://127.0.0.1:%d", freePort())
+	}
 	w.Case(fmt.Sprintf("SF%d", idx), "loopstart", "proto="+proto, "loops="+tr.I(loops), "reuseport="+tr.B(reuseport),
 		"client="+tr.B(client), "fault="+name, "index="+tr.I(index), "kind="+kind, "focus=startfault", "seed="+tr.U64(seed), "idx="+tr.I(idx))
 	if !client {
@@ -83,6 +91,9 @@ func runStartFault(w *tr.Writer, seed uint64, idx int) {
 		nlis := 1
 		if addr2 != "" {
 			nlis = 2
+		}
+		if addr3 != "" {
+			nlis = 3
 		}
 		// (createListeners: SO_REUSEPORT mode is dropped when a Unix-domain address is among the listeners and
 		// forced when a UDP address is)
@@ -109,7 +120,11 @@ func runStartFault(w *tr.Writer, seed uint64, idx int) {
 	} else {
 		go func() {
 			if addr2 != "" {
-				done <- gnet.Rotate(h, []string{addr, addr2}, gnet.WithNumEventLoop(loops), gnet.WithReusePort(reuseport))
+				addrs := []string{addr, addr2}
+				if addr3 != "" {
+					addrs = append(addrs, addr3)
+				}
+				done <- gnet.Rotate(h, addrs, gnet.WithNumEventLoop(loops), gnet.WithReusePort(reuseport))
 				return
 			}
 			done <- gnet.Run(h, addr, gnet.WithNumEventLoop(loops), gnet.WithReusePort(reuseport))
